@@ -16,6 +16,12 @@ func main() {
 	}
 	installHook()
 	switch os.Args[1] {
+	case "check":
+		os.Exit(checkMain(os.Args[2:]))
+	case "worker":
+		os.Exit(workerMain(os.Args[2:]))
+	case "replay":
+		os.Exit(replayMain(os.Args[2:]))
 	case "gencheck":
 		os.Exit(genCheck(os.Args[2:]))
 	default:
